@@ -1943,6 +1943,9 @@ def _p_stack(name):
     def h(I, args, kw, node):
         a = args[0]
         items = a[1] if a[0] == "tuple" else (a,)
+        if name == "hstack":
+            # a one-element zero vector in a concatenation is the scalar 0 there (`concatenate([zeros(1), x])` is `hstack([0, x])`)
+            items = tuple(ZERO if (it[0] == "app" and it[1] == "zeros" and len(it[2]) == 1 and it[2][0] == K(1)) else it for it in items)
         axis = kw.get("axis", args[1] if len(args) > 1 else None)
         if a[0] != "tuple" and name == "stack" and axis is not None and axis != ZERO:
             return ("app", name, tuple(items) + (("kw", "axis", axis),))  # an opaque sequence stacked along another axis
